@@ -23,3 +23,53 @@ package pkcs7
 //@        ret0.Content.SignerInfos[0].IssuerAndSerialNumber.SerialNumber == sb.certs[0].SerialNumber && \
 //@        sameslice(ret0.Content.SignerInfos[0].IssuerAndSerialNumber.IssuerName.FullBytes, sb.certs[0].RawIssuer)
 //@   ensures @signature_value_is_the_keys_output ret1 == nil ==> sameslice(ret0.Content.SignerInfos[0].EncryptedDigest, sigValue)
+//@
+//@ func (*SignerInfo).FindCertificate
+//@   property C02
+//@   ghost issuerEq bool = false
+//@   ghost serialEq bool = false
+//@   on call bytes.Equal(a, b) ret (r): issuerEq = (r && sameslice(a, cert.RawIssuer) && sameslice(b, is.IssuerName.FullBytes))
+//@   on call (*math/big.Int).Cmp(a, b) ret (c): serialEq = (c == 0 && a == cert.SerialNumber && b == is.SerialNumber)
+//@   ensures @certificate_named_by_issuer_and_serial ret1 == nil ==> ret0 != nil && issuerEq && serialEq && ret0 == cert && elem(certs, ret0)
+//@   ensures @none_on_error ret1 != nil ==> ret0 == nil
+//@   modifies nothing
+//@
+//@ func (*SignerInfo).Verify
+//@   property C02
+//@   ghost lastWritten []byte = nil
+//@   ghost lastDigest []byte = nil
+//@   ghost lastDigestOf []byte = nil
+//@   ghost mdOK bool = false
+//@   ghost attrBytes []byte = nil
+//@   ghost foundCert *x509.Certificate = nil
+//@   ghost foundOK bool = false
+//@   ghost sigOK bool = false
+//@   ghost sigOver []byte = nil
+//@   on call invoke hash.Hash.Write(_, b) ret (n, e): lastWritten = b
+//@   on call invoke hash.Hash.Sum(_, _) ret (s): lastDigest = s; lastDigestOf = lastWritten
+//@   on call crypto/hmac.Equal(a, b) ret (r): mdOK = (r && sameslice(a, md) && sameslice(b, lastDigest) && sameslice(lastDigestOf, content))
+//@   on call (SignerInfo).AuthenticatedAttributesBytes(s) ret (ab, e): attrBytes = ab
+//@   on call (*SignerInfo).FindCertificate(s, cs) ret (c, e): foundCert = c; foundOK = (e == nil && s == si && sameslice(cs, certs))
+//@   on call x509tools.PkixVerify(pub, _, _, d, sg) ret (e): sigOK = (e == nil && foundOK && pub == foundCert.PublicKey && sameslice(d, lastDigest) && sameslice(sg, si.EncryptedDigest)); sigOver = lastDigestOf
+//@   on call x509tools.Verify(pub, _, d, sg) ret (e): sigOK = (e == nil && foundOK && pub == foundCert.PublicKey && sameslice(d, lastDigest) && sameslice(sg, si.EncryptedDigest)); sigOver = lastDigestOf
+//@   ensures @certificate_is_the_one_the_signer_info_names ret1 == nil ==> foundOK && ret0 == foundCert
+//@   ensures @content_digest_compared_with_message_digest_attribute ret1 == nil && !skipDigests && len(si.AuthenticatedAttributes) != 0 ==> mdOK
+//@   ensures @signature_value_verified ret1 == nil && (!skipDigests || len(si.AuthenticatedAttributes) != 0) ==> sigOK
+//@   ensures @signature_covers_the_attributes_when_present ret1 == nil && len(si.AuthenticatedAttributes) != 0 ==> sameslice(sigOver, attrBytes)
+//@   ensures @signature_covers_the_content_otherwise ret1 == nil && !skipDigests && len(si.AuthenticatedAttributes) == 0 ==> sameslice(sigOver, content)
+//@   modifies nothing
+//@
+//@ func (*SignedData).Verify
+//@   property C02
+//@   ghost embedded []byte = nil
+//@   ghost eqChecked bool = false
+//@   ghost verified int = 0
+//@   on call (ContentInfo).Bytes(_) ret (b, e): embedded = b
+//@   on call bytes.Equal(a, b) ret (r): eqChecked = (r && sameslice(a, externalContent) && sameslice(b, embedded))
+//@   on call (*SignerInfo).Verify(s, c, sk, cs) ret (crt, e): verified = verified + ite(e == nil && sameslice(c, content) && sk == skipDigests, 1, 0)
+//@   loop 0 sig "for _, si := range sd.SignerInfos" invariant verified == rangeindex + 1 && -1 <= rangeindex && rangeindex < len(sd.SignerInfos)
+//@   ensures @every_signer_info_verified ret1 == nil ==> len(sd.SignerInfos) >= 1 && verified == len(sd.SignerInfos)
+//@   ensures @content_is_embedded_or_the_external_one ret1 == nil && !skipDigests ==> \
+//@        (embedded != nil ==> sameslice(content, embedded) && (externalContent != nil ==> eqChecked)) && \
+//@        (embedded == nil ==> externalContent != nil && sameslice(content, externalContent))
+//@   modifies nothing
